@@ -65,11 +65,18 @@ def lake_build(targets, timeout=3000):
         return p.returncode == 0, p.stdout.decode('utf-8', 'replace'), time.time() - t0
 
 
+_driver_ready = False
+
+
 def ensure_driver():
-    if not os.path.exists(DRIVER):
-        ok, out, _ = lake_build(['driver'])
-        if not ok:
-            raise Infra('driver does not build:\n' + out[-3000:])
+    """(re)build the driver once per process: a no-op build when nothing changed"""
+    global _driver_ready
+    if _driver_ready:
+        return
+    ok, out, _ = lake_build(['driver'])
+    if not ok:
+        raise Infra('driver does not build:\n' + out[-3000:])
+    _driver_ready = True
 
 
 def driver(lines, timeout=3000):
